@@ -41,10 +41,31 @@ def check(fn, seq, npartitions=None, chunksize=None):
     return None
 
 
+def skewed(rnd):
+    """Sorted sequences as run lengths: up to 13 distinct values; uniform short runs, mostly-singletons with a few
+    long runs, singletons with a long tail run, a long head run (the shapes where chunk-sized steps land inside runs)."""
+    k = rnd.randrange(1, 14)
+    mode = rnd.randrange(5)
+    seq = []
+    for j in range(k):
+        if mode == 0:
+            r = rnd.randrange(1, 4)
+        elif mode == 1:
+            r = 1 if rnd.random() < 0.7 else rnd.randrange(2, 25)
+        elif mode == 2:
+            r = 1 if j < k - 1 else rnd.randrange(1, 30)
+        elif mode == 3:
+            r = rnd.randrange(1, 30) if j == 0 else rnd.randrange(1, 3)
+        else:
+            r = rnd.randrange(1, 8)
+        seq += [j] * r
+    return seq
+
+
 def sweep(tier, seed=0):
     t0 = time.time()
     fn = load()
-    maxlen = 6 if tier == "quick" else 8
+    maxlen = 8  # the property's own exhaustive bound (8312 cases, < 1 s)
     alpha = "ABCD"
     cases, fails = 0, []
     sample = None
@@ -67,21 +88,21 @@ def sweep(tier, seed=0):
                 break
         if len(fails) >= 5:
             break
-    if tier != "quick" and not fails:
+    if not fails:
         import random
 
         rnd = random.Random(seed)
-        for _ in range(20000):
-            n = rnd.randrange(1, 60)
-            seq = sorted(rnd.randrange(0, rnd.randrange(1, 30)) for _ in range(n))
-            kw = {rnd.choice(["npartitions", "chunksize"]): rnd.randrange(1, n + 2)}
+        for _ in range(20000 if tier == "quick" else 200000):
+            seq = skewed(rnd)
+            n = len(seq)
+            kw = {rnd.choice(["npartitions", "chunksize"]): rnd.randrange(1, min(n, 16) + 2)}
             cases += 1
             msg = check(fn, seq, **kw)
             if msg:
                 fails.append(rtc.Failure("sorted_division_locations", {"seq": seq, **kw}, "ensures", "C45", msg))
                 break
     return {"function": "dask/dataframe/io/io.py:sorted_division_locations (extracted source)", "bounded": True,
-            "bound": {"alphabet": alpha, "max_len": maxlen, "npartitions/chunksize": "1..len+1"}, "cases": cases, "distinct_nontrivial": cases,
+            "bound": {"alphabet": alpha, "max_len": maxlen, "npartitions/chunksize": "1..len+1", "plus": "seeded random run-length families, <= 13 distinct values, runs <= 29"}, "cases": cases, "distinct_nontrivial": cases,
             "failures_found": len(fails), "wall_s": round(time.time() - t0, 2), "samples": [{"native_case": sample}], "failures": fails, "exhaustive": True}
 
 
